@@ -402,6 +402,22 @@ Proof.
   split; [lia|]. split; [lia|]. exact (held_not_pooled _ _ _ I A).
 Qed.
 
+(* the same for ANY way of rendering the text that is injective on the ids a pool can hand out (1 .. 2^64-1):
+   nothing about the shape or the length of the format is used *)
+Lemma unique_texts_any_render : forall (rend : Z -> list Z) ls h1 h2 id1 id2,
+  (forall a b, 1 <= a < two64 -> 1 <= b < two64 -> rend a = rend b -> a = b) ->
+  mints ls < two64 ->
+  In (h1, id1) (live (fold_left step ls init)) -> In (h2, id2) (live (fold_left step ls init)) -> h1 <> h2 ->
+  rend id1 <> rend id2.
+Proof.
+  intros rend ls h1 h2 id1 id2 Inj M A B NE T.
+  pose proof (inv_reachable ls M) as I. unfold run_steps in I.
+  pose proof (live_id_range _ _ _ I A) as R1. pose proof (live_id_range _ _ _ I B) as R2.
+  assert (C : 0 <= counter (fold_left step ls init) < two64) by (destruct I as [_ [_ [_ [_ C]]]]; exact C).
+  assert (E : id1 = id2) by (apply Inj; [lia | lia | exact T]).
+  subst id2. apply NE. eapply unique_holders; [exact I | exact A | exact B].
+Qed.
+
 Lemma release_nil_or_cleared : forall s h, h = 0 \/ lookup h (live s) = 0 -> step s (SRelease h) = s.
 Proof.
   intros s h H. destruct H as [H|H]; [subst h; apply release_nil_noop | apply release_cleared_noop; exact H].
